@@ -3,7 +3,12 @@ section-in-segment containment.
 impl  = the real library on ELFFile(BytesIO(image)) over synthesized minimal images
 model = extracted Model/C02Contents.v, spec = extracted Spec/C02Spec.v (all header bytes of the
 images come from the Coq gABI encoders).  A second stream ('sis_oracle') validates the Coq
-transliteration of binutils' ELF_SECTION_IN_SEGMENT_STRICT against /usr/bin/readelf -lW."""
+transliteration of binutils' ELF_SECTION_IN_SEGMENT_STRICT against /usr/bin/readelf -lW.
+Observation ORDER is part of every case, never fixed by this file: each section case carries a list of orders
+(one FRESH section object per order, each observer asked first once), string lookups come in a drawn order with
+data() calls in between, segment data is asked before/after section_in_segment, and the 'addr_hist' stream puts
+one ELFFile through a drawn history of address_offsets / iter_segments generators that are started, resumed item
+by item, closed or dropped half way (model: Model/C02Hist.v, theorem C02_address_offsets_history_exact)."""
 import io, os, re, subprocess, tempfile, zlib
 from tools.lib.framework import impl_call, VERIF
 
@@ -30,7 +35,12 @@ LEVEL = {
             'string lookups for every string without NUL at any offset independent of the 64-byte chunking, '
             'address_offsets = the PT_LOAD segments wholly containing the range in header order (program headers '
             'decoded from the image), and Segment.section_in_segment = binutils ELF_SECTION_IN_SEGMENT_STRICT with '
-            '64-bit wrap for all header values in [0,2^64) on non-TBSS-special, non-wrapping pairs. Gen tables '
+            '64-bit wrap for all header values in [0,2^64) on non-TBSS-special, non-wrapping pairs. Order and '
+            'history independence are theorems too: any list of compressed/data_size/data_alignment/data() '
+            'observations of one section object is answered from the (compression) header, and every answer of '
+            'every history of address_offsets/iter_segments generators on one ELFFile (started, resumed, abandoned, '
+            'interleaved) equals the stateless addr_map (simulation invariant lifted over the fold of the step '
+            'function). Gen tables '
             '(SH_FLAGS, sh_type/p_type/ch_type decode tables for every e_machine, Elf_Chdr/Elf_Phdr layouts) are tied '
             'by theorems; the hand model is pinned by a boundary-complete correspondence.',
     'design_ref': '4.2',
@@ -46,13 +56,20 @@ RULE = ('cases: (sec_plain/sec_nobits/sec_comp) sizes {0,1,63,64,65,127,128,129,
         '(addr) ranges straddling/abutting/outside every PT_LOAD of generated header tables incl. overlapping '
         'segments, non-standard e_phentsize; (sis) cross product of file-geometry x address-geometry classes x '
         '{ALLOC,TLS} flags x section types x 17 segment types x zero-size segments x values near 2^32/2^64; '
-        '(sis_oracle) the same pairs, Coq macro vs /usr/bin/readelf -lW. distinct = hash(kind, abstract); '
+        '(sis_oracle) the same pairs, Coq macro vs /usr/bin/readelf -lW. Orders are drawn: every section case lists '
+        'orders of (compressed, data_size, data_alignment, data()) each run on a fresh object obtained by get_section / '
+        'abandoned iter_sections / get_section_by_name, each observer first once, sh_addralign != ch_addralign; string '
+        'offsets ascending/descending/shuffled with data() in between; Segment.data before/after section_in_segment and '
+        'through partly consumed iter_segments; (addr_hist) histories of start/next/close/drop/list/noise on one ELFFile '
+        'over address_offsets, iter_segments() and iter_segments(PT_LOAD) generators, ranges biased to LATER PT_LOADs. '
+        'distinct = hash(kind, abstract); '
         'non-trivial = size>0 data, table with a string >= 63 bytes, any addr/sis pair')
 
 K_SMALL = 'compressed-declared-size-smaller-accepted'
 K_ZERO = 'section_in_segment-zero-size-section-at-PT_DYNAMIC/PT_NOTE-edge'
 K_SFRAME = 'section_in_segment-PT_GNU_SFRAME/PT_GNU_MBIND-non-alloc-section'
 K_ORACLE = 'spec-vs-readelf-oracle'
+K_ORDER = 'section-answer-depends-on-observation-order'
 
 STD = {True: dict(eh=64, ph=56, sh=64, ch=24), False: dict(eh=52, ph=32, sh=40, ch=12)}
 BASE = 0x400          # data cases: tables end below, free area starts here
@@ -144,6 +161,32 @@ def open_elf(img):
     return ELFFile(io.BytesIO(img))
 
 
+def open_after_predecessor(ctx, sibling, img, use):
+    """ELFFile(img), opened right after a PREDECESSOR - an ELFFile over [sibling] (same geometry, different bytes)
+    whose section 1 was put through [use] - has been dropped, and (CPython) at the very address the predecessor
+    occupied: state kept at class or module level, or keyed on object identity, then answers from the wrong file.
+    The reference cycles ELFFile <-> its own sections are cut before the drop so that the object is freed at once
+    and its block is the next one handed out; whether the address was reused is counted in the evidence."""
+    elf, ids = None, set()
+    for rnd in range(3):
+        e0 = impl_call(open_elf, sibling)
+        if isinstance(e0, list):        # the sibling does not open: no predecessor
+            break
+        impl_call(lambda: use(e0.get_section(1)))
+        ids.add(id(e0))
+        for k, v in list(vars(e0).items()):
+            if getattr(v, 'elffile', None) is e0:
+                setattr(e0, k, None)
+        del e0
+        elf = open_elf(img)
+        if id(elf) in ids:
+            break
+    if elf is None:
+        elf = open_elf(img)
+    ctx.bump('predecessor_at_same_address', id(elf) in ids)
+    return elf
+
+
 def utf8_canon(b):
     return b.decode('utf-8', errors='replace').encode('utf-8') if isinstance(b, (bytes, bytearray)) else b
 
@@ -176,6 +219,33 @@ def zstream(rng, p, level):
     return zlib.compress(p, level)
 
 
+OBS = ('compressed', 'data_size', 'data_alignment', 'data()')
+OLD_ORDER = [[0, [3, 0, 1, 2]]]      # what this harness asked before orders were drawn (replays of that time)
+
+
+def draw_orders(rng, big=False):
+    """Orders of observation for one section case: a list of [how, [observer codes]].  Every order runs on a FRESH
+    section object (how: 0 new ELFFile + get_section, 1 get_section on the case's shared ELFFile, 2 second item of
+    an abandoned iter_sections(), 3 get_section_by_name, 4 list(iter_sections())[1]).  Each of the four observers is asked FIRST on some fresh
+    object (two of the four, drawn, for big payloads), the rest of the order is a drawn permutation, sometimes with
+    an observer repeated, sometimes cut short."""
+    firsts = [0, 1, 2, 3]
+    rng.shuffle(firsts)
+    if big:
+        firsts = firsts[:2]
+    out = []
+    for f in firsts:
+        rest = [o for o in range(4) if o != f]
+        rng.shuffle(rest)
+        order = [f] + rest
+        if rng.random() < 0.3:
+            order.insert(rng.randint(1, 4), rng.randrange(4))
+        if rng.random() < 0.15:
+            order = order[:rng.randint(1, 3)]
+        out.append([rng.randrange(5), order])
+    return out
+
+
 def gen_sections(ctx, cases):
     rng = ctx.rng
     cfgs = CFGS[:4] if ctx.tier == 'quick' else CFGS
@@ -199,11 +269,12 @@ def gen_sections(ctx, cases):
                 sht = rng.choice([1, 1, 7, 14, 0x60000005, 0x70000001])
                 flags = rng.choice([0, 2, 3, 6, 0x30, 0x402])
                 cases.append(('sec_plain', [cfg, sht, flags, rng.getrandbits(20), off, size, rng.choice([0, 1, 4, 16]),
-                                            length, rng.getrandbits(8)]))
+                                            length, rng.getrandbits(8), draw_orders(rng)]))
             # no-bits: the offset carries no meaning, the file holds nothing for it
             off = rng.choice([0, BASE, BASE + 5, 10 ** 6, 2 ** 31 + 5])
             cases.append(('sec_nobits', [cfg, rng.choice([3, 0x403, 2, 0]), rng.getrandbits(20), off, size,
-                                         rng.choice([1, 8, 32]), BASE + rng.choice([0, 10]), rng.getrandbits(8)]))
+                                         rng.choice([1, 8, 32]), BASE + rng.choice([0, 10]), rng.getrandbits(8),
+                                         draw_orders(rng)]))
     # compressed
     psizes = [0, 1, 2, 63, 64, 65, 127, 128, 129, 255, 256, 4095, 4096] + ctx.scale([9000], [20000, 33000, 45000])
     lvl = 0
@@ -216,17 +287,23 @@ def gen_sections(ctx, cases):
                 level = lvl % 10; lvl += 1
                 z = zstream(rng, p, level)
                 off = BASE + rng.choice([0, 1, 13])
+                # sh_addralign (alignment of the COMPRESSED bytes) never equals ch_addralign: real linkers write
+                # 1/4/8 into the one and the data's own alignment into the other, and equal values hide which one
+                # an observer reads
+                align = rng.choice([1, 4, 8])
                 common = dict(cfg=cfg, sht=rng.choice([1, 1, 1, 0x60000005]), flags=SHF_COMPRESSED | rng.choice([0, 0, 2, 0x30]),
-                              addr=rng.getrandbits(16), off=off, align=rng.choice([1, 4]), ch_type=1,
+                              addr=rng.getrandbits(16), off=off, align=align, ch_type=1,
                               res=rng.getrandbits(32) if is64 else 0, declared=n,
-                              ch_align=rng.choice([0, 1, 8, 2 ** 31, top - 1, top // 2]), zs=z, oracle=['valid', z, p],
+                              ch_align=rng.choice([x for x in (0, 1, 8, 16, 2 ** 31, top - 1, top // 2) if x != align]),
+                              zs=z, oracle=['valid', z, p],
                               trailing=b'', size_adj=0, tail=rng.choice([0, 0, 5]), seed=rng.getrandbits(8), level=level)
 
                 def emit(**kw):
                     d = dict(common); d.update(kw)
                     cases.append(('sec_comp', [d['cfg'], d['sht'], d['flags'], d['addr'], d['off'], d['align'],
                                                d['ch_type'], d['res'], d['declared'], d['ch_align'], d['zs'], d['oracle'],
-                                               d['trailing'], d['size_adj'], d['tail'], d['seed'], d['level']]))
+                                               d['trailing'], d['size_adj'], d['tail'], d['seed'], d['level'],
+                                               draw_orders(rng, big=len(d['zs']) > 5000 or n > 5000)]))
                 emit()
                 if rep == 0:
                     # declared size smaller / larger than the inflated size
@@ -247,8 +324,9 @@ def gen_sections(ctx, cases):
         for level in range(10):
             for p in (b'', payload(rng, 64, 3)):
                 z = zlib.compress(p, level)
-                cases.append(('sec_comp', [cfg, 1, SHF_COMPRESSED, 0, BASE, 1, 1, 0xa5a5a5a5 if cfg[0] else 0, len(p), 1, z,
-                                           ['valid', z, p], b'', 0, 2, level, level]))
+                cases.append(('sec_comp', [cfg, 1, SHF_COMPRESSED, 0, BASE, 1 + level % 2 * 3, 1,
+                                           0xa5a5a5a5 if cfg[0] else 0, len(p), 8 << (level % 3), z,
+                                           ['valid', z, p], b'', 0, 2, level, level, draw_orders(rng)]))
     # the length of the COMPRESSED stream around power-of-two buffer sizes (an implementation that feeds
     # the inflater piecewise must not depend on where the stream tail - end-of-block bits, Adler-32 - falls):
     # stored blocks (level 0: |z| = n + 2 + 5 per 65535-byte block + 4) and incompressible data at level 6
@@ -261,12 +339,30 @@ def gen_sections(ctx, cases):
                         continue
                     pl = payload(rng, n, 0)
                     z = zlib.compress(pl, level)
-                    cases.append(('sec_comp', [cfg, 1, SHF_COMPRESSED, 0, BASE, 1, 1, 0, len(pl), 1, z,
-                                               ['valid', z, pl], b'', 0, rng.choice([0, 3]), rng.getrandbits(8), level]))
+                    cases.append(('sec_comp', [cfg, 1, SHF_COMPRESSED, 0, BASE, 1, 1, 0, len(pl), rng.choice([4, 8, 64]), z,
+                                               ['valid', z, pl], b'', 0, rng.choice([0, 3]), rng.getrandbits(8), level,
+                                               draw_orders(rng, big=True)]))
     # compression header cut by the end of the file (construction fails)
     for cfg in cfgs[:2] + cfgs[2:3]:
         for cut in (0, 1, STD[cfg[0]]['ch'] - 1):
-            cases.append(('sec_chdr_cut', [cfg, BASE, cut]))
+            cases.append(('sec_chdr_cut', [cfg, BASE, cut, draw_orders(rng)]))
+
+
+def draw_sched(rng):
+    """[perm_seed, data_every]: the order in which the offsets of a table are looked up (0 ascending, 1 descending,
+    else shuffled by that seed) and after how many lookups a data() call is put in between (0: never)"""
+    return [rng.choice([0, 1, rng.randrange(2, 1 << 16), rng.randrange(2, 1 << 16)]), rng.choice([0, 1, 7, 50])]
+
+
+def sched_offsets(offs, sched):
+    import random
+    perm_seed, data_every = sched
+    offs = list(offs)
+    if perm_seed == 1:
+        offs.reverse()
+    elif perm_seed > 1:
+        random.Random(perm_seed).shuffle(offs)
+    return offs
 
 
 def gen_strings(ctx, cases):
@@ -290,11 +386,12 @@ def gen_strings(ctx, cases):
             ls = list(lens) if t == 0 else [rng.choice(lens + [rng.randint(0, 200)]) for _ in range(rng.randint(1, 8))]
             rng.shuffle(ls)
             strs = [b''] + [rs(n, uni=(t % 3 == 2)) for n in ls]
-            cases.append(('strtab', [cfg, BASE + rng.randint(0, 63), strs, True, rng.choice([0, 1, 70]), rng.getrandbits(8)]))
+            cases.append(('strtab', [cfg, BASE + rng.randint(0, 63), strs, True, rng.choice([0, 1, 70]), rng.getrandbits(8),
+                                     draw_sched(rng)]))
         if cfg is cfgs[0] or ctx.tier != 'quick':
             # a table longer than 4096 bytes: offsets far from the table start
             strs = [b''] + [rs(rng.choice([5, 17, 64, 100, 250]), False) for _ in range(60)]
-            cases.append(('strtab', [cfg, BASE + rng.randint(0, 63), strs, True, 3, rng.getrandbits(8)]))
+            cases.append(('strtab', [cfg, BASE + rng.randint(0, 63), strs, True, 3, rng.getrandbits(8), draw_sched(rng)]))
         # malformed: last string runs into the end of the file / into the following bytes
         cases.append(('strtab', [cfg, BASE + 3, [b'', b'abc', rs(70, False)], False, 0, 1]))
         cases.append(('strtab', [cfg, BASE + 3, [b'', b'abc', rs(70, False)], False, 9, 1]))
@@ -310,21 +407,28 @@ def gen_segments(ctx, cases):
                 length = off + size + (rng.choice([1, 64]) if place == 'inside' else 0 if place == 'at_eof' else -1)
                 if place == 'past_eof' and size == 0:
                     continue
+                # how the Segment object is obtained (0 get_segment, 1 first item of an abandoned iter_segments(),
+                # 2 list(iter_segments())[0], 3 first item of an abandoned iter_segments(type=its own type)) and what
+                # is asked of it in which order: 0 data(), 1 section_in_segment(null section), 2 section_in_segment(.shstrtab)
+                ops = [rng.choice([0, 0, 1, 2]) for _ in range(rng.randint(1, 4))]
+                if 0 not in ops:
+                    ops.insert(rng.randint(0, len(ops)), 0)
                 cases.append(('seg_data', [cfg, rng.choice([1, 1, 4, 7, 0x6474e551, 0x12345]), off, size, length,
-                                           rng.getrandbits(8)]))
+                                           rng.getrandbits(8), rng.randrange(4), ops]))
         for n in [0, 1, 2, 15, 63, 64, 65, 127, 128, 200]:
             path = (b'/lib64/ld-linux-x86-64.so.2' * 9)[:n] if n % 2 else ('/élib/ld.so'.encode() * 30)[:n]
             path = path.decode('utf-8', errors='ignore').encode()
-            cases.append(('interp', [cfg, BASE + rng.choice([0, 3]), path, True, rng.choice([0, 4]), rng.getrandbits(8)]))
+            cases.append(('interp', [cfg, BASE + rng.choice([0, 3]), path, True, rng.choice([0, 4]), rng.getrandbits(8), 0,
+                                     rng.choice([[0], [1, 0], [0, 1, 0], [0, 0], [1, 1, 0]])]))
             # p_filesz is a free header field: the path is the C string at p_offset whatever the segment's
             # declared size (larger: bytes after the terminator lie inside the segment; smaller: the string
             # runs past it).  7th element = p_filesz - (len(path) + 1)
             extra = rng.choice([1, 2, 7, 40])
             cases.append(('interp', [cfg, BASE + rng.choice([0, 3]), path, True, extra + rng.choice([0, 4]),
-                                     rng.getrandbits(8), extra]))
+                                     rng.getrandbits(8), extra, rng.choice([[0], [1, 0], [0, 1, 0]])]))
             if n >= 2:
                 cases.append(('interp', [cfg, BASE, path, True, rng.choice([0, 4]), rng.getrandbits(8),
-                                         -rng.randint(1, n)]))
+                                         -rng.randint(1, n), rng.choice([[0], [1, 0], [0, 1, 0]])]))
         cases.append(('interp', [cfg, BASE, b'/lib/ld.so.1', False, 0, 3]))
 
 
@@ -334,19 +438,7 @@ def gen_addr(ctx, cases):
     for cfg in cfgs:
         is64 = cfg[0]
         hi = 2 ** (64 if is64 else 32)
-        sets = [
-            # two disjoint loads, a note inside the first, an overlapping third load
-            [(1, 5, 0x1000, 0x400000, 0x400000, 0x200, 0x300, 0x1000), (4, 4, 0x1100, 0x400100, 0x400100, 0x20, 0x20, 4),
-             (1, 6, 0x2000, 0x600000, 0x600000, 0x80, 0x80, 0x1000), (1, 4, 0x3000, 0x400180, 0, 0x100, 0x100, 1),
-             (2, 6, 0x2010, 0x600010, 0x600010, 0x40, 0x40, 8)],
-            # zero-size load, load at address 0, load whose filesz < memsz (bss), duplicate load
-            [(1, 4, 0x500, 0, 0, 0x10, 0x10, 1), (1, 6, 0x600, 0x5000, 0x5000, 0, 0x1000, 1),
-             (1, 6, 0x700, 0x8000, 0x8000, 0x40, 0x4000, 1), (1, 6, 0x700, 0x8000, 0x8000, 0x40, 0x4000, 1),
-             (PT['RELRO'], 4, 0x700, 0x8000, 0x8000, 0x40, 0x40, 1)],
-            # near the top of the address space
-            [(1, 5, 0x100, hi - 0x1000, 0, 0x800, 0x800, 1), (7, 4, 0x100, hi - 0x1000, 0, 0x800, 0x800, 1),
-             (1, 5, hi - 0x2000, 0x10, 0, 0x100, 0x100, 1)],
-        ]
+        sets = addr_sets(hi)
         for segs in sets:
             for phgap, phextra in ((0, 0), (5, 8)):
                 for g in segs:
@@ -372,6 +464,102 @@ def gen_addr(ctx, cases):
                              fs + rng.choice([0, 0x10]), 1])
             cases.append(('addr', [cfg, rng.choice([0, 3]), rng.choice([0, 4]), segs, rng.choice([0x1000, 0x1040, 0x10ff, 0x1100, rng.randrange(0x3200)]),
                                    rng.choice([None, 0, 1, 0x40, 0x100, rng.randrange(0x120)])]))
+
+
+def addr_sets(hi):
+    """the three hand-made program header tables of gen_addr (shared with the history stream)"""
+    return [
+        [(1, 5, 0x1000, 0x400000, 0x400000, 0x200, 0x300, 0x1000), (4, 4, 0x1100, 0x400100, 0x400100, 0x20, 0x20, 4),
+         (1, 6, 0x2000, 0x600000, 0x600000, 0x80, 0x80, 0x1000), (1, 4, 0x3000, 0x400180, 0, 0x100, 0x100, 1),
+         (2, 6, 0x2010, 0x600010, 0x600010, 0x40, 0x40, 8)],
+        [(1, 4, 0x500, 0, 0, 0x10, 0x10, 1), (1, 6, 0x600, 0x5000, 0x5000, 0, 0x1000, 1),
+         (1, 6, 0x700, 0x8000, 0x8000, 0x40, 0x4000, 1), (1, 6, 0x700, 0x8000, 0x8000, 0x40, 0x4000, 1),
+         (PT['RELRO'], 4, 0x700, 0x8000, 0x8000, 0x40, 0x40, 1)],
+        [(1, 5, 0x100, hi - 0x1000, 0, 0x800, 0x800, 1), (7, 4, 0x100, hi - 0x1000, 0, 0x800, 0x800, 1),
+         (1, 5, hi - 0x2000, 0x10, 0, 0x100, 0x100, 1)],
+    ]
+
+
+def draw_history(rng, segs, nops):
+    """A history of calls on ONE ELFFile: ['start', kind] creates generator number 0,1,.. ; ['next', g]; ['close', g]
+    (g.close()); ['drop', g] (last reference deleted: CPython finalises the generator at once; never followed by
+    next g); ['all', kind] = list(...); ['noise', c, x] = an unrelated call.  kind = ['addr', start, size, dflt]
+    (dflt: size left to its default 1) | ['segs'] | ['loads'].  Ranges are drawn around the PT_LOAD segments of the
+    table with the LATER ones as likely as the first; the history ends with complete lookups in every PT_LOAD."""
+    loads = [g for g in segs if g[0] == 1]
+
+    def addr_kind():
+        if loads and rng.random() < 0.85:
+            g = rng.choice(loads)
+            v, fs = g[3], g[5]
+            st = max(0, rng.choice([v, v, v + 1, v + fs - 1, v + fs, v - 1, v + fs // 2]))
+            sz = rng.choice([1, 1, 0, 2, fs, fs + 1, max(fs - (st - v), 0)])
+        else:
+            st, sz = rng.randrange(0x3200), rng.choice([0, 1, 0x40])
+        if sz == 1 and rng.random() < 0.5:
+            return ['addr', st, 1, 1]
+        return ['addr', st, sz, 0]
+
+    def kind():
+        r = rng.random()
+        return addr_kind() if r < 0.75 else ['segs'] if r < 0.88 else ['loads']
+    ops, ngen, live, gone = [], 0, [], set()
+    while len(ops) < nops:
+        r = rng.random()
+        if r < 0.3 or not live:
+            # a lookup that is started, consumed for k items and (half of the time) abandoned
+            ops.append(['start', kind()])
+            g = ngen
+            ngen += 1
+            live.append(g)
+            for _ in range(rng.choice([0, 1, 1, 1, 2, 3])):
+                ops.append(['next', g])
+            if rng.random() < 0.5:
+                how = rng.choice(['close', 'drop'])
+                ops.append([how, g])
+                live.remove(g)
+                if how == 'drop':
+                    gone.add(g)
+        elif r < 0.55:
+            g = rng.choice([x for x in range(ngen) if x not in gone] or [0])
+            if g not in gone:
+                ops.append(['next', g])
+        elif r < 0.65:
+            g = rng.choice(live)
+            how = rng.choice(['close', 'drop'])
+            ops.append([how, g])
+            live.remove(g)
+            if how == 'drop':
+                gone.add(g)
+        elif r < 0.85:
+            ops.append(['all', kind()])
+        else:
+            ops.append(['noise', rng.randrange(9), rng.randrange(0x4000)])
+    for g in loads:
+        ops.append(['all', ['addr', g[3], min(1, g[5]), 0]])
+    return ops
+
+
+def gen_addr_hist(ctx, cases):
+    rng = ctx.rng
+    cfgs = CFGS[:4] if ctx.tier == 'quick' else CFGS
+    for cfg in cfgs:
+        hi = 2 ** (64 if cfg[0] else 32)
+        for segs in addr_sets(hi):
+            for phgap, phextra in ((0, 0), (5, 8)):
+                for _ in range(ctx.scale(6, 60)):
+                    cases.append(('addr_hist', [cfg, phgap, phextra, [list(x) for x in segs],
+                                                draw_history(rng, segs, rng.choice([3, 6, 12, 20]))]))
+        for _ in range(ctx.scale(60, 1500)):
+            n = rng.randint(0, 6)
+            segs = []
+            for i in range(n):
+                v = rng.choice([0x1000, 0x1040, 0x2000, rng.randrange(0x3000)])
+                fs = rng.choice([0, 1, 0x40, 0x100, rng.randrange(0x200)])
+                segs.append([rng.choice([1, 1, 1, 1, 2, 4, 7, 0, 0x70000001]), rng.getrandbits(3), rng.randrange(0x4000), v,
+                             rng.choice([v, 0, 0x1000]), fs, fs + rng.choice([0, 0x10]), 1])
+            cases.append(('addr_hist', [cfg, rng.choice([0, 3]), rng.choice([0, 4]), segs,
+                                        draw_history(rng, segs, rng.choice([2, 5, 10, 16]))]))
 
 
 def sis_geometry(P, F, sizes):
@@ -494,6 +682,7 @@ def gen(ctx):
     gen_strings(ctx, cases)
     gen_segments(ctx, cases)
     gen_addr(ctx, cases)
+    gen_addr_hist(ctx, cases)
     gen_sis(ctx, cases)
     return cases
 
@@ -525,6 +714,147 @@ def readelf_mapping(img, nseg):
     return res
 
 
+# ---- running orders / histories on the real objects
+def run_sec_orders(ctx, img, orders, extent=None):
+    """one FRESH section object per order; answers in the shape of the driver's sec_obs.  The case's shared ELFFile
+    is opened after a predecessor over the same image with the bytes of the section's file extent changed."""
+    shared = []
+
+    def elf_shared():
+        if not shared:
+            if extent and extent[0] < len(img):
+                lo, hi = extent[0], min(len(img), extent[0] + max(extent[1], 0))
+                sib = img[:lo] + bytes(b ^ 0x5a for b in img[lo:hi]) + img[hi:]
+                shared.append(open_after_predecessor(
+                    ctx, sib, img, lambda s0: [s0.compressed, s0.data_size, s0.data_alignment, impl_call(s0.data)]))
+            else:
+                shared.append(open_elf(img))
+        return shared[0]
+    out = []
+    for how, order in orders:
+        ctx.bump('first_observer_on_fresh_object', OBS[order[0]] if order else 'none')
+
+        def one():
+            if how == 0:
+                sec = open_elf(img).get_section(1)
+            elif how == 1:
+                sec = elf_shared().get_section(1)
+            elif how == 2:
+                it = elf_shared().iter_sections()
+                next(it)
+                sec = next(it)          # the walk is abandoned here
+            elif how == 3:
+                sec = elf_shared().get_section_by_name('s1')
+            else:
+                sec = list(elf_shared().iter_sections())[1]
+            ans = []
+            for code in order:
+                if code == 0:
+                    ans.append(int(bool(sec.compressed)))
+                elif code == 1:
+                    ans.append(sec.data_size)
+                elif code == 2:
+                    ans.append(sec.data_alignment)
+                else:
+                    d = impl_call(sec.data)
+                    ans.append(['ok', d] if isinstance(d, bytes) else d)
+            return ['ok', ans]
+        out.append(impl_call(one))
+    return out
+
+
+def order_dependent(impl, orders):
+    """did the same observer give different answers on different fresh objects / at different places of an order?"""
+    seen = {}
+    for (how, order), r in zip(orders, impl):
+        if isinstance(r, list) and len(r) == 2 and r[0] == 'ok':
+            for code, ans in zip(order, r[1]):
+                if seen.setdefault(code, ans) != ans:
+                    return True
+    return False
+
+
+def seg_item(seg):
+    return [seg['p_flags'], seg['p_offset'], seg['p_vaddr'], seg['p_paddr'], seg['p_filesz'], seg['p_memsz'], seg['p_align']]
+
+
+def run_history(ctx, img, ops):
+    """the history on ONE ELFFile; answers in the shape of the driver's elf_hist"""
+    elf = open_elf(img)
+    gens, is_addr = [], []
+
+    def make(kind):
+        if kind[0] == 'addr':
+            return elf.address_offsets(kind[1]) if len(kind) > 3 and kind[3] else elf.address_offsets(kind[1], kind[2])
+        return elf.iter_segments() if kind[0] == 'segs' else elf.iter_segments(type='PT_LOAD')
+
+    def item(kind, v):
+        return [v] if kind[0] == 'addr' else seg_item(v)
+    out = []
+    for op in ops:
+        t = op[0]
+        ctx.bump('history_op', t)
+        if t == 'start':
+            gens.append(make(op[1]))
+            is_addr.append(op[1])
+            out.append('unit')
+        elif t == 'next':
+            g = op[1]
+            if g >= len(gens):
+                out.append('nogen')
+            elif gens[g] is None:
+                out.append('stop')      # (only in hand-edited replays) a dropped generator is a finished one
+            else:
+                try:
+                    out.append(['item', item(is_addr[g], next(gens[g]))])
+                except StopIteration:
+                    out.append('stop')
+                except Exception as e:  # noqa
+                    out.append(['err', type(e).__name__])
+        elif t in ('close', 'drop'):
+            g = op[1]
+            if g >= len(gens):
+                out.append('nogen')
+            else:
+                if t == 'close' and gens[g] is not None:
+                    gens[g].close()
+                else:
+                    gens[g] = None      # last reference gone: CPython finalises the suspended generator now
+                out.append('unit')
+        elif t == 'all':
+            try:
+                out.append(['list', [item(op[1], v) for v in make(op[1])]])
+            except Exception as e:  # noqa
+                out.append(['err', type(e).__name__])
+        else:
+            c, x = op[1], op[2] if len(op) > 2 else 0
+            n = elf.num_segments()
+
+            def noise():
+                if c == 0:
+                    elf.num_segments()
+                elif c == 1:
+                    if n:
+                        elf.get_segment(x % n)
+                elif c == 2:
+                    next(elf.iter_sections())
+                elif c == 3:
+                    list(elf.iter_sections())
+                elif c == 4:
+                    elf.get_section_by_name('.shstrtab')
+                elif c == 5:
+                    elf.get_section(elf.num_sections() - 1).data()
+                elif c == 6:
+                    elf.stream.seek(x)
+                elif c == 7:
+                    next(elf.iter_segments(), None)
+                else:
+                    elf.has_dwarf_info()
+            impl_call(noise)
+            out.append('unit')
+    return out
+
+
 class Work:
     __slots__ = ('kind', 'a', 'img', 'plan', 'enc_lo', 'enc_n', 'extra', 'model_req', 'spec_req', 'mi', 'si')
 
@@ -540,31 +870,31 @@ def evaluate(ctx, cases):
         w = Work()
         w.kind, w.a, w.plan, w.extra = kind, a, None, {}
         if kind == 'sec_plain':
-            cfg, sht, flags, addr, off, size, align, length, seed = a
+            cfg, sht, flags, addr, off, size, align, length, seed = a[:9]
             w.plan = Img(cfg, [dict(type=sht, flags=flags, addr=addr, offset=off, size=size, addralign=align)], [],
                          length=length, seed=seed)
         elif kind == 'sec_nobits':
-            cfg, flags, addr, off, size, align, length, seed = a
+            cfg, flags, addr, off, size, align, length, seed = a[:8]
             w.plan = Img(cfg, [dict(type=8, flags=flags, addr=addr, offset=off, size=size, addralign=align)], [],
                          length=length, seed=seed)
         elif kind == 'sec_comp':
             (cfg, sht, flags, addr, off, align, ch_type, res, declared, ch_align, zs, oracle, trailing, size_adj, tail,
-             seed, level) = a
+             seed, level) = a[:17]
             body_len = STD[bool(cfg[0])]['ch'] + len(zs) + len(trailing)
             w.plan = Img(cfg, [dict(type=sht, flags=flags, addr=addr, offset=off, size=body_len + size_adj,
                                     addralign=align)], [], length=off + body_len + tail, seed=seed)
             w.plan.reqs.append(['enc_chdr', bool(cfg[1]), bool(cfg[0]), ch_type, res, declared, ch_align])
         elif kind == 'sec_chdr_cut':
-            cfg, off, cut = a
+            cfg, off, cut = a[:3]
             w.plan = Img(cfg, [dict(type=1, flags=SHF_COMPRESSED, addr=0, offset=off, size=100)], [], length=off + cut, seed=3)
         elif kind == 'strtab':
-            cfg, off, strs, final_nul, tail, seed = a
+            cfg, off, strs, final_nul, tail, seed = a[:6]
             tbl = b'\0'.join(strs) + (b'\0' if final_nul else b'')
             w.extra['tbl'] = tbl
             w.plan = Img(cfg, [dict(type=3, flags=0, addr=0, offset=off, size=len(tbl))], [], blobs=[(off, tbl)],
                          length=off + len(tbl) + tail, seed=seed)
         elif kind == 'seg_data':
-            cfg, ptype, off, size, length, seed = a
+            cfg, ptype, off, size, length, seed = a[:6]
             w.plan = Img(cfg, [], [(ptype, 4, off, 0x1000, 0x2000, size, size + 7, 1)], length=length, seed=seed)
         elif kind == 'interp':
             cfg, off, path, term, tail, seed = a[:6]
@@ -576,6 +906,9 @@ def evaluate(ctx, cases):
         elif kind == 'addr':
             cfg, phgap, phextra, segs, start, size = a
             w.plan = Img(cfg, [], [tuple(g) for g in segs], phgap=phgap, phextra=phextra, seed=5)
+        elif kind == 'addr_hist':
+            cfg, phgap, phextra, segs, ops = a
+            w.plan = Img(cfg, [], [tuple(g) for g in segs], phgap=phgap, phextra=phextra, seed=6)
         elif kind in ('sis', 'sis_oracle'):
             cfg, g, s = a
             sis_groups.setdefault((tuple(cfg), kind), []).append(len(works))
@@ -602,7 +935,8 @@ def evaluate(ctx, cases):
         le, is64, mach = pl.le, pl.is64, pl.mach
         if kind == 'sec_comp':
             (cfg, sht, flags, addr, off, align, ch_type, res, declared, ch_align, zs, oracle, trailing, size_adj, tail,
-             seed, level) = a
+             seed, level) = a[:17]
+            w.extra['orders'] = a[17] if len(a) > 17 else OLD_ORDER
             chdr, fits = e[-1]
             assert fits, 'Chdr values do not fit'
             pl.blobs = [(off, chdr + zs + trailing)]
@@ -620,33 +954,69 @@ def evaluate(ctx, cases):
                 except zlib.error:
                     oracle = ['error', data]
             w.extra['oracle'] = oracle
-            w.mi = ask(['sec', w.img, le, is64, mach, sht, flags, addr, off, size, align, oracle])
-            w.si = ask(['spec_sec', w.img, le, is64, sht, flags, off, size, align, oracle])
+            olist = [o for _, o in w.extra['orders']]
+            w.mi = ask(['sec_obs', w.img, le, is64, mach, sht, flags, addr, off, size, align, oracle, olist])
+            w.si = ask(['spec_sec_obs', w.img, le, is64, sht, flags, off, size, align, oracle, olist])
             continue
         w.img = pl.finish(e)
+        if kind == 'strtab':
+            # a sibling file: same geometry (every NUL where it was), every other byte of the table different.
+            # It is opened, queried and collected BEFORE the case's file (see pass 3): answers must come from the
+            # file at hand, not from an object that lived at the same address before
+            keep = pl.blobs
+            pl.blobs = [(o, bytes(0 if b == 0 else b % 127 + 1 for b in t)) for o, t in keep]
+            w.extra['sibling'] = pl.finish(e)
+            pl.blobs = keep
         if kind in ('sec_plain', 'sec_nobits', 'sec_chdr_cut'):
             s = pl.sections[0]
             o = ['error', b'']
-            w.mi = ask(['sec', w.img, le, is64, mach, s['type'], s['flags'], s['addr'], s['offset'], s['size'],
-                        s.get('addralign', 1), o])
-            w.si = ask(['spec_sec', w.img, le, is64, s['type'], s['flags'], s['offset'], s['size'], s.get('addralign', 1), o])
+            nfix = {'sec_plain': 9, 'sec_nobits': 8, 'sec_chdr_cut': 3}[kind]
+            w.extra['orders'] = a[nfix] if len(a) > nfix else OLD_ORDER
+            olist = [o2 for _, o2 in w.extra['orders']]
+            w.mi = ask(['sec_obs', w.img, le, is64, mach, s['type'], s['flags'], s['addr'], s['offset'], s['size'],
+                        s.get('addralign', 1), o, olist])
+            w.si = ask(['spec_sec_obs', w.img, le, is64, s['type'], s['flags'], s['offset'], s['size'],
+                        s.get('addralign', 1), o, olist])
         elif kind == 'strtab':
             off = a[1]
-            offs = list(range(len(w.extra['tbl']) + (0 if a[3] else 1)))
-            w.extra['offs'] = offs
+            sched = a[6] if len(a) > 6 else [0, 0]
+            offs = sched_offsets(range(len(w.extra['tbl']) + (0 if a[3] else 1)), sched)
+            w.extra['offs'], w.extra['data_every'] = offs, sched[1]
             w.mi = ask(['get_strings', w.img, off, offs])
             w.si = ask(['spec_strings', w.img, off, offs])
+            if sched[1]:
+                # data() of the table between the lookups: the plain-section model / spec of the same extent
+                o = ['error', b'']
+                w.extra['dmi'] = ask(['sec', w.img, le, is64, mach, 3, 0, 0, off, len(w.extra['tbl']), 1, o])
+                w.extra['dsi'] = ask(['spec_sec', w.img, le, is64, 3, 0, off, len(w.extra['tbl']), 1, o])
         elif kind == 'seg_data':
             w.mi = ask(['seg_data', w.img, a[2], a[3]])
             w.si = ask(['spec_extent', w.img, a[2], a[3]])
+            w.extra['how'], w.extra['ops'] = (a[6], a[7]) if len(a) > 7 else (0, [0])
+            g = list(pl.segments[0])
+            w.extra['sis'] = {}
+            for code, sh in ((1, [0, 0, 0, 0, 0]), (2, [3, 0, 0, pl.stroff, len(pl.names)])):
+                if code in w.extra['ops']:
+                    w.extra['sis'][code] = (ask(['sis_gen', mach, g, sh]), ask(['spec_sis', g, sh]))
         elif kind == 'interp':
             w.mi = ask(['interp', w.img, a[1]])
             w.si = ask(['spec_string', w.img, a[1]])
+            w.extra['ops'] = a[7] if len(a) > 7 else [0]
+            if 1 in w.extra['ops']:
+                fsz = pl.segments[0][5]
+                w.extra['dmi'] = ask(['seg_data', w.img, a[1], fsz])
+                w.extra['dsi'] = ask(['spec_extent', w.img, a[1], fsz])
         elif kind == 'addr':
             cfg, phgap, phextra, segs, start, size = a
             sz = 1 if size is None else size
             w.mi = ask(['addr', w.img, le, is64, mach, pl.phoff, pl.phentsize, len(segs), start, sz])
             w.si = ask(['spec_addr', w.img, le, is64, pl.phoff, pl.phentsize, segs, start, sz])
+        elif kind == 'addr_hist':
+            cfg, phgap, phextra, segs, ops = a
+            # the model and the spec know close(); dropping the last reference is the same event for a generator
+            dops = [['close', o[1]] if o[0] == 'drop' else o for o in ops]
+            w.mi = ask(['elf_hist', w.img, le, is64, mach, pl.phoff, pl.phentsize, len(segs), dops])
+            w.si = ask(['spec_elf_hist', w.img, le, is64, pl.phoff, pl.phentsize, segs, dops])
     # containment pairs: model and spec need no image
     for (cfgk, kind), idxs in sis_groups.items():
         for i in idxs:
@@ -713,14 +1083,9 @@ def evaluate(ctx, cases):
             sp = answers[w.si]
             in_dom = sp != 'none'
             spec = sp[1] if in_dom else model
-
-            def run():
-                elf = open_elf(w.img)
-                sec = elf.get_section(1)
-                d = impl_call(sec.data)
-                return ['ok', [int(bool(sec.compressed)), sec.data_size, sec.data_alignment,
-                               ['ok', d] if isinstance(d, bytes) else d]]
-            impl = impl_call(run)
+            sh = w.plan.sections[0]
+            lo = max(sh['offset'], w.plan.tables_end)       # the headers stay: the sibling has the same geometry
+            impl = run_sec_orders(ctx, w.img, w.extra['orders'], extent=(lo, sh['offset'] + sh['size'] - lo))
             key = None
             nt = True
             if kind == 'sec_comp':
@@ -731,6 +1096,8 @@ def evaluate(ctx, cases):
                     ctx.bump('declared_vs_inflated', 'equal' if declared == plen else 'smaller' if declared < plen else 'larger')
                     if declared < plen:
                         key = K_SMALL
+                if order_dependent(impl, w.extra['orders']):
+                    key = K_ORDER
                 ctx.bump('chdr_class', ('ELF64' if a[0][0] else 'ELF32') + ('LE' if a[0][1] else 'BE'))
             else:
                 size = a[5] if kind == 'sec_plain' else a[4] if kind == 'sec_nobits' else 0
@@ -738,38 +1105,99 @@ def evaluate(ctx, cases):
                 ctx.bump('size', size if size < 300 else '300+')
             ctx.record(kind, a, impl=impl, spec=spec, model=model, in_domain=in_dom, nontrivial=nt, key=key)
         elif kind == 'strtab':
-            model = [utf8_canon(x) for x in answers[w.mi]]
+            mstr = [utf8_canon(x) for x in answers[w.mi]]
             sp = answers[w.si]
             in_dom = bool(a[3]) and all(x != 'none' for x in sp)
-            spec = [utf8_canon(x[1]) for x in sp] if in_dom else model
+            every = w.extra['data_every']
+            mdata = sdata = None
+            if every:
+                mdata, sd = answers[w.extra['dmi']], answers[w.extra['dsi']]
+                mdata = mdata[1][3] if mdata[0] == 'ok' else mdata
+                sdata = sd[1][1][3] if sd != 'none' else mdata
+            offs = w.extra['offs']
 
             def run():
-                elf = open_elf(w.img)
+                elf = open_after_predecessor(ctx, w.extra['sibling'], w.img,
+                                             lambda s0: [s0.get_string(o) for o in offs] + [s0.data()])
                 sec = elf.get_section(1)
-                return [sec.get_string(o).encode('utf-8') for o in w.extra['offs']]
+                strings, datas = [], []
+                for i, o in enumerate(offs):
+                    if every and i % every == 0:
+                        d = impl_call(sec.data)
+                        datas.append(['ok', d] if isinstance(d, bytes) else d)
+                    strings.append(sec.get_string(o).encode('utf-8'))
+                return [strings, datas]
             impl = impl_call(run)
-            ctx.bump('strtab_offsets', len(w.extra['offs']) // 100 * 100)
+            ndata = len(range(0, len(offs), every)) if every else 0
+            model = [mstr, [mdata] * ndata]
+            spec = [[utf8_canon(x[1]) for x in sp], [sdata] * ndata] if in_dom else model
+            ctx.bump('strtab_offsets', len(offs) // 100 * 100)
+            ctx.bump('strtab_order', 'ascending' if not (len(a) > 6 and a[6][0]) else 'descending' if a[6][0] == 1 else 'shuffled')
             ctx.record(kind, a, impl=impl, spec=spec, model=model, in_domain=in_dom,
                        nontrivial=any(len(s) >= 63 for s in a[2]))
         elif kind == 'seg_data':
-            model = answers[w.mi]
+            mdata = answers[w.mi]
             sp = answers[w.si]
             in_dom = sp != 'none'
-            spec = sp[1] if in_dom else model
-            impl = impl_call(lambda: open_elf(w.img).get_segment(0).data())
+            sdata = sp[1] if in_dom else mdata
+            how, ops = w.extra['how'], w.extra['ops']
+            msis, ssis = {}, {}
+            for code, (mi, si) in w.extra['sis'].items():
+                msis[code] = answers[mi]
+                dom, strict, lists, tbss = answers[si]
+                ssis[code] = strict if dom else msis[code]
+
+            def run():
+                elf = open_elf(w.img)
+                if how == 0:
+                    seg = elf.get_segment(0)
+                elif how == 1:
+                    it = elf.iter_segments()
+                    seg = next(it)
+                elif how == 2:
+                    seg = list(elf.iter_segments())[0]
+                else:
+                    it = elf.iter_segments(type=elf.get_segment(0)['p_type'])
+                    seg = next(it)
+                out = []
+                for code in ops:
+                    if code == 0:
+                        out.append(impl_call(seg.data))
+                    else:
+                        sec = elf.get_section(code - 1)
+                        out.append(impl_call(lambda: int(bool(seg.section_in_segment(sec)))))
+                return out
+            impl = impl_call(run)
+            model = [mdata if c == 0 else msis[c] for c in ops]
+            spec = [sdata if c == 0 else ssis[c] for c in ops]
+            ctx.bump('seg_obtained', ('get_segment', 'iter_segments abandoned', 'list(iter_segments)', 'iter_segments(type) abandoned')[how])
             ctx.record(kind, a, impl=impl, spec=spec, model=model, in_domain=in_dom, nontrivial=a[3] > 0)
         elif kind == 'interp':
-            model = answers[w.mi]
-            if isinstance(model, list) and model[0] == 'ok':
-                model = ['ok', utf8_canon(model[1])]
+            mname = answers[w.mi]
+            if isinstance(mname, list) and mname[0] == 'ok':
+                mname = ['ok', utf8_canon(mname[1])]
             sp = answers[w.si]
             in_dom = sp != 'none'
-            spec = ['ok', utf8_canon(sp[1])] if in_dom else model
+            sname = ['ok', utf8_canon(sp[1])] if in_dom else mname
+            ops = w.extra['ops']
+            if 1 in ops:
+                mdata, sd = answers[w.extra['dmi']], answers[w.extra['dsi']]
+                sdata = sd[1] if sd != 'none' else mdata      # extent past the end of the file: not this property's
+            else:
+                mdata = sdata = None
 
             def run():
                 seg = open_elf(w.img).get_segment(0)
-                return ['ok', seg.get_interp_name().encode('utf-8')]
+                out = []
+                for code in ops:
+                    if code == 0:
+                        out.append(impl_call(lambda: ['ok', seg.get_interp_name().encode('utf-8')]))
+                    else:
+                        out.append(impl_call(seg.data))
+                return out
             impl = impl_call(run)
+            model = [mname if c == 0 else mdata for c in ops]
+            spec = [sname if c == 0 else sdata for c in ops]
             ctx.record(kind, a, impl=impl, spec=spec, model=model, in_domain=in_dom, nontrivial=len(a[2]) > 0)
         elif kind == 'addr':
             cfg, phgap, phextra, segs, start, size = a
@@ -783,6 +1211,15 @@ def evaluate(ctx, cases):
                 return ['ok', list(elf.address_offsets(start) if size is None else elf.address_offsets(start, size))]
             impl = impl_call(run)
             ctx.bump('addr_hits', len(offs))
+            ctx.record(kind, a, impl=impl, spec=spec, model=model, in_domain=in_dom, nontrivial=True)
+        elif kind == 'addr_hist':
+            cfg, phgap, phextra, segs, ops = a
+            model = answers[w.mi]
+            wf, sans = answers[w.si]
+            in_dom = bool(wf)
+            spec = sans if in_dom else model
+            impl = impl_call(lambda: run_history(ctx, w.img, ops))
+            ctx.bump('history_ops', len(ops) // 5 * 5)
             ctx.record(kind, a, impl=impl, spec=spec, model=model, in_domain=in_dom, nontrivial=True)
         elif kind == 'sis':
             cfg, g, s = a
